@@ -5623,6 +5623,11 @@ class Entity(object, metaclass=EntityMeta):
         assert obj._save_pos_ is not None, 'save_pos is None for %s object' % obj._status_
         cache = obj._session_cache_
         assert cache is not None and cache.is_alive and not cache.saved_objects
+        if obj._status_ == 'marked_to_delete' and cache.deleted_before_update:
+            # rows that still refer to this one may have to be deleted first (_delete_referring_rows_first_), each
+            # of them after its own before_delete hook: the order and the hooks are left to the full flush
+            cache.flush()
+            return
         with cache.flush_disabled():
             obj._before_save_principals_({obj})  # new objects that _save_() will insert first get their hook too
             obj._before_save_() # should be inside flush_disabled to prevent infinite recursion
